@@ -28,10 +28,14 @@ def s1Mcall (closes : Bool) (obj : V SO) (m : Name) (args : List (V SO)) (_kw : 
   | .host .socket =>
     if m = 0x72656376 then
       match args with
-      | [.int _] =>
-        (match st.chunks with
-         | c :: cs => (.ok (.bytes c), { st with chunks := cs })
-         | [] => if closes then (.ok (.bytes []), st) else (.error (.exc 0x54696d656f75744572726f72 0), st))
+      | [.int i] =>
+        -- the request must be `self._bufsize` (the token 4096 below): the recv schedule `chunks` is what successive
+        -- `recv(bufsize)` calls return; a request of any other size is outside what the model describes
+        if i == 4096 then
+          (match st.chunks with
+           | c :: cs => (.ok (.bytes c), { st with chunks := cs })
+           | [] => if closes then (.ok (.bytes []), st) else (.error (.exc 0x54696d656f75744572726f72 0), st))
+        else (raiseX xUnsupported, st)
       | _ => (raiseX xUnsupported, st)
     else (raiseX xUnsupported, st)
   | _ => (raiseX xUnsupported, st)
@@ -68,10 +72,10 @@ theorem sa_socket (st : Sock) : s1Attr (.host .self) 0x5f736f636b6574 st = .ok (
 theorem sa_bufsize (st : Sock) : s1Attr (.host .self) 0x5f62756673697a65 st = .ok (.int 4096) := rfl
 theorem sa_buffer (st : Sock) : s1Attr (.host .self) 0x5f627566666572 st = .ok (.bytes st.buf) := rfl
 theorem ss_buffer (b : Bytes) (st : Sock) : s1Setattr (.host .self) 0x5f627566666572 (.bytes b) st = (.ok (), { st with buf := b }) := rfl
-theorem sm_recv_cons (cl : Bool) (i : Int) (buf c : Bytes) (cs : List Bytes) (kw : List (Name × V SO)) :
-    s1Mcall cl (.host .socket) 0x72656376 [.int i] kw ⟨buf, c :: cs⟩ = (.ok (.bytes c), ⟨buf, cs⟩) := rfl
-theorem sm_recv_nil (cl : Bool) (i : Int) (buf : Bytes) (kw : List (Name × V SO)) :
-    s1Mcall cl (.host .socket) 0x72656376 [.int i] kw ⟨buf, []⟩
+theorem sm_recv_cons (cl : Bool) (buf c : Bytes) (cs : List Bytes) (kw : List (Name × V SO)) :
+    s1Mcall cl (.host .socket) 0x72656376 [.int 4096] kw ⟨buf, c :: cs⟩ = (.ok (.bytes c), ⟨buf, cs⟩) := rfl
+theorem sm_recv_nil (cl : Bool) (buf : Bytes) (kw : List (Name × V SO)) :
+    s1Mcall cl (.host .socket) 0x72656376 [.int 4096] kw ⟨buf, []⟩
       = (if cl then (.ok (.bytes []), ⟨buf, []⟩) else (.error (.exc 0x54696d656f75744572726f72 0), ⟨buf, []⟩)) := rfl
 
 macro "sp" "[" ls:Lean.Parser.Tactic.simpLemma,* "]" : tactic => `(tactic| pystep [s1_mcall, s1_attr, s1_setattr, sa_socket, sa_bufsize, sa_buffer,
